@@ -39,6 +39,7 @@ var props = map[string]propCfg{
 		Quick:    tierCfg{Shards: 8, Checks: 2000, Timeout: 4 * time.Minute},
 		Thorough: tierCfg{Shards: 16, Checks: 20000, Timeout: 40 * time.Minute},
 		Rule: "as C01 without elisions, 2-5 planted instances with independently drawn fillers (identifiers, calls, binary/unary expressions, composite and func literals, type expressions), plus sides that rename, wrap, swap, drop, duplicate holes and add statements/arguments. " +
+			"Fillers draw one identifier in six from the pattern's own metavariable names and include generic instantiations, slice expressions, keyed composite literals of composite types, method calls, conversions and func literals with results; one plus side in about ten is a bare metavariable of the minus side ('-traced(x)' / '+x', no marker), with call instances also planted as the operand of defer / go and as a statement (slots whose static type is *ast.CallExpr). Copies of a metavariable must be the code as it was matched: instances nested inside the captured code are not rewritten in the copies. " +
 			"Non-trivial = >= 2 reference sites with pairwise different bindings.",
 		Assumptions: modelAssumptions,
 		MinNontriv:  50,
@@ -116,6 +117,7 @@ var props = map[string]propCfg{
 		Quick:    tierCfg{Shards: 8, Checks: 1500, Timeout: 3 * time.Minute},
 		Thorough: tierCfg{Shards: 16, Checks: 40000, Timeout: 20 * time.Minute},
 		Rule: "complete table: patch-side import form {absent, unnamed, literally named, metavariable-named, dot, blank} x file-side imports of the guarded path {none, unnamed, same name, other name, dot, blank, spelled like the metavariable, and 8 two-spec combinations in both orders} x file layout {single imports, one group, group among unrelated imports incl. paths that are a prefix/suffix of the guarded path, two blocks, ...: 8 layouts} x package clause {absent, same, different} x guard line kind {context, '-'} x second guarded import {none, satisfied, missing, present in another form} = 17k cells, in every one of which the code pattern does occur in the file; then generated cells with 0-5 extra unrelated imports in drawn forms. Oracle: the table in the property statement decides applies / no effect; 'no effect' is checked as byte-identical Apply result. " +
+			"Package clause cases: absent, same, different, and the near-misses file foo_test / guard foo, guard foo_test / file foo, both foo_test, guard a prefix of the name, guard longer than the name, other capitalisation. Body shapes: expression -> expression (full cross product), and expression -> several statements, statements -> statement, whole function declaration (crossed with two layouts and two second-guard cases). " +
 			"Non-trivial = every cell (each carries at least one guard); distinct by the cell's coordinates.",
 		Assumptions: []string{
 			"a file that imports the guarded path twice satisfies a guard if any of the two specs has the stated form",
@@ -127,6 +129,7 @@ var props = map[string]propCfg{
 		Quick:    tierCfg{Shards: 8, Checks: 4000, Timeout: 3 * time.Minute},
 		Thorough: tierCfg{Shards: 16, Checks: 60000, Timeout: 30 * time.Minute},
 		Rule: "part (a): generated files with 0-8 bystander imports (unnamed, named, blank, dot; one group, single declarations, two blocks, with doc and trailing comments; paths that extend or are extended by the subject path) around a subject import, and patches that replace it, change its path keeping its name, delete it, add another import or merely match it, naming it literally, not at all or by an identifier metavariable, optionally with a second deleted or added import; the file still refers to the subject package not at all, plainly, or only through pkg.A.B / pkg.F().B / pkg.T[0].B / a nested func literal / type positions. Oracle on the (name, path) multiset: bystanders unchanged, nothing unmentioned added, '+' imports present once (under the captured name), '-' imports gone iff nothing refers to their package name any more (or a '+' import supplies the same name). " +
+			"Subject paths are plain, gopkg.in/yaml.v2 -> v3 or example.com/codec/v2 -> v3 (the package name is not the last path element); remaining uses include a parameter, a local variable and a receiver named like the package (not references to the package). " +
 			"part (b): mined patterns with '+import' lines on real hosts (host imports must survive as a multiset, the added import appears once). " +
 			"Non-trivial = (a) the change applies, >= 2 bystanders of >= 2 different forms, and the patch adds or deletes an import; (b) >= 1 site and a '+import' line.",
 		Assumptions: append([]string{
@@ -149,7 +152,7 @@ var props = map[string]propCfg{
 	"C09": {
 		Quick:    tierCfg{Shards: 8, Checks: 350, Timeout: 4 * time.Minute},
 		Thorough: tierCfg{Shards: 16, Checks: 2500, Timeout: 40 * time.Minute},
-		Rule: "sequences of 2-5 changes: (a) a mined change on a real host followed by changes that match only the marker code it introduces (bare identifier, empty call, one/two-argument call, call with elision, selector forms), independent changes mined from the same host, and steps that fail at rewrite time (plus side uses an unbound metavariable); (b) synthetic call-rewriting chains fK(...) -> fK+1(...) over a small file (argument permutation, dropping, duplication, wrapping of arguments, elisions that match zero arguments, changes on names that never occur, a later change on a wrapper introduced earlier). The sequence is cut into 1..n patch files and given as one file, several -p, a -P list, -p plus -P, or stdin. Oracle (differential): the combined CLI run vs the chain of single-change runs, each on the bytes the previous one wrote, compared as canonical trees with parentheses looked through; if a single step fails, the combined run must exit non-zero and leave the file byte-identical. " +
+		Rule: "sequences of 2-5 changes: (a) a mined change on a real host followed by changes that match only the marker code it introduces (bare identifier, empty call, one/two-argument call, call with elision, selector forms), independent changes mined from the same host, and steps that fail at rewrite time (plus side uses an unbound metavariable); (b) synthetic call-rewriting chains fK(...) -> fK+1(...) over a small file (argument permutation, dropping, duplication, wrapping of arguments, elisions that match zero arguments, changes on names that never occur, a later change on a wrapper introduced earlier). The sequence is cut into 1..n patch files and given as one file, several -p, a -P list, -p plus -P, or stdin. (c) guard sequences: 2-5 changes drawn from a pool that renames the package, replaces / adds / deletes / renames imports, or is guarded by a package clause or an import that an earlier change may have introduced or taken away; (d) focused histories on the same calls fK(<nested argument>, <tail>): steps that bind a metavariable to the nested argument and then fail to match, rewrite something strictly inside it, or reproduce it under a new callee (one patch file in a third of the cases, so that whatever a compiled program remembers is shared). Oracle (differential): the combined CLI run vs the chain of single-change runs, each on the bytes the previous one wrote, compared as canonical trees with parentheses looked through; if a single step fails, the combined run must exit non-zero and leave the file byte-identical. " +
 			"Non-trivial = at least two changes applied and one of them does not apply to the original file on its own, or a failing step after at least one applied change; distinct by sha256(changes, file, channel, split).",
 		Assumptions: []string{
 			"-p files are given before the -P list (gopatch loads all -p patches first; the only unambiguous 'given order')",
@@ -161,6 +164,7 @@ var props = map[string]propCfg{
 		Quick:    tierCfg{Shards: 8, Checks: 120, Timeout: 4 * time.Minute},
 		Thorough: tierCfg{Shards: 16, Checks: 2500, Timeout: 40 * time.Minute},
 		Rule: "compiling patches that put captured code where it may not fit (38 templates: expression holes reproduced in if/for/switch headers, selectors, index and composite positions, type positions, labels, statements <-> expressions; fillers include composite literals, key:value pairs, variadic x..., type expressions, func literals), template-grammar ill-typed patches, and mined patterns on real hosts; every case is run through the library API and through the CLI in 8 mode x flag combinations (in place, --print-only, --diff, each with and without --skip-import-processing, plus --skip-generated and -v). Oracle: every content emitted with exit status 0 (file bytes after an in-place run, --print-only stdout, original + applied --diff, Apply result) must parse with go/parser; when an error is reported instead, stderr must name the file, the file must be byte-identical and no new content may have been printed for it (an unchanged echo under --print-only is not an emission). " +
+			"One case in six uses a 239-byte file name (no temporary sibling can be created next to it); four templates make the file shorter. " +
 			"Non-trivial = some mode emitted content that differs from the input or reported a 'would not parse' error; distinct by sha256(patch, file).",
 		Assumptions: []string{
 			"patches gopatch rejects at load time are not judged (nothing is emitted)",
@@ -172,6 +176,7 @@ var props = map[string]propCfg{
 		Quick:    tierCfg{Shards: 8, Checks: 1200, Timeout: 4 * time.Minute},
 		Thorough: tierCfg{Shards: 16, Checks: 15000, Timeout: 40 * time.Minute},
 		Rule: "real hosts (their own comments of every kind: licence headers, //go:build lines, package docs, declaration docs, end-of-line and free-standing comments) additionally decorated by a comment injector (unique tokens c17_<n>: end-of-line comments after statements, free-standing comment lines, doc comments and //go:generate directives above top-level declarations, /* */ comments after ',' and '(' inside expressions, a file header), gofmt-stable, with a mined change that rewrites 1..n places. Oracle: (1) the multiset of comment texts of the output is included in that of the input; (2) for every top-level declaration in which the reference rewrites nothing, the list of its doc, inner and trailing comments is unchanged, in order; (3) header and package comments unchanged; (4) free-standing comments between two untouched declarations unchanged. Judged only when the code of the output equals the reference rewrite. " +
+			"Declarations of input and output correspond in order by exact code equality, so changes that remove a declaration, add one or turn one into another kind (func -> const, var -> func, ...; 9 such changes in the pool) are judged too. " +
 			"Non-trivial = a rewritten declaration whose two neighbours are untouched and commented; distinct by sha256(patch, file).",
 		Assumptions: append([]string{
 			"comments are compared by whitespace-normalised text; empty comments ('//') are ignored; inputs are gofmt-stable so that gofmt's own doc-comment reformatting cannot change them",
